@@ -83,6 +83,23 @@ def bits_of(b, o, be):
     return nb, sets, o + 4 + 4 * m
 
 
+def payload_len(body, o2q, be, has_qos):
+    """length of the serialized payload of a DATA / DATA_FRAG body (after the inline QoS)"""
+    p = o2q
+    if has_qos:
+        while True:
+            if p + 4 > len(body):
+                return None
+            pid, n = u16(body, p, be), u16(body, p + 2, be)
+            p += 4
+            if pid == 1:
+                break
+            if n % 4 != 0 or p + n > len(body):
+                return None
+            p += n
+    return max(0, len(body) - p)
+
+
 def decode(d):
     """best-effort decoding used by the generator and to measure the initial state:
     [(kind, dict)] for the submessages it understands (the Coq model has its own decoder)"""
@@ -90,6 +107,9 @@ def decode(d):
     src = d[8:20]
     for (_off, kind, fl, n, body) in W.split(d):
         be = not (fl & 1)
+        if kind in (0x06, 0x07, 0x08, 0x12, 0x13, 0x0c):
+            # these parsers are handed the whole rest of the datagram, not their own bytes only
+            body = d[_off + 4:]
         try:
             if kind == 0x06:
                 r = bits_of(body, 16, be)
@@ -117,13 +137,19 @@ def decode(d):
                                        nbits=nb, sets=sets, count=i32(body, end, be), src=src)))
             elif kind == 0x15:
                 o2q = u16(body, 2, be) + 4
-                out.append(("DA", dict(rid=body[4:8], wid=body[8:12], sn=sn64(body, 12, be), plen=max(0, len(body) - o2q),
+                pl = payload_len(body, o2q, be, bool(fl & 2))
+                if pl is None:
+                    continue
+                out.append(("DA", dict(rid=body[4:8], wid=body[8:12], sn=sn64(body, 12, be), plen=pl if fl & 12 else 0,
                                        qos=bool(fl & 2), src=src)))
             elif kind == 0x16:
                 o2q = u16(body, 2, be) + 4
+                pl = payload_len(body, o2q, be, bool(fl & 2))
+                if pl is None or len(body) < 32:
+                    continue
                 out.append(("DF", dict(rid=body[4:8], wid=body[8:12], sn=sn64(body, 12, be), fstart=u32(body, 20, be),
                                        fcount=u16(body, 24, be), fsize=u16(body, 26, be), dsize=u32(body, 28, be),
-                                       plen=max(0, len(body) - o2q), qos=bool(fl & 2), src=src)))
+                                       plen=pl, qos=bool(fl & 2), src=src)))
             elif kind == 0x0c:
                 src = body[8:20]
                 out.append(("IS", dict(prefix=src)))
@@ -190,8 +216,8 @@ def measure(log, knobs):
                 for k, f in subs:
                     if k == "HB" and f["wid"] == EID_W and f["count"] > hb:
                         hb, first, last = f["count"], f["first"], f["last"]
-                    if k == "DA" and f["wid"] == EID_W and f["sn"] == high + 1:
-                        high = f["sn"]
+                    if k in ("DA", "DF") and f["wid"] == EID_W:
+                        high = max(high, f["sn"])   # the set-up phase delivers every sample completely
             if fr == 1 and to == x:
                 for k, f in subs:
                     if k == "AN" and f["wid"] == EID_W and f["rid"] == EID_R:
@@ -207,12 +233,15 @@ def measure(log, knobs):
                 for k, f in subs:
                     if k == "DA" and f["wid"] == EID_W:
                         changes[f["sn"]] = f["plen"]
+                    if k == "DF" and f["wid"] == EID_W:
+                        changes[f["sn"]] = f["dsize"]
             if fr == x and to == 1:
                 for k, f in subs:
                     if k == "AN" and f["wid"] == EID_W and f["rid"] == EID_R and f["count"] > an:
                         an = f["count"]
                         acked = max(acked, f["base"] - 1)
-        rps.append(dict(guid=pfx + EID_R, sent=max(changes) if changes else 0, acked=acked, an=an))
+        rps.append(dict(guid=pfx + EID_R, sent=max(changes) if changes else 0, acked=acked, an=an,
+                        rel=(knobs.get("rel", 1) == 1) if x == 1 else True))
     return dict(wps=wps, rps=rps, changes=sorted(changes.items()), frag=frag, rel=knobs.get("rel", 1))
 
 
@@ -223,7 +252,8 @@ def cl(b):
 def state_term(m):
     wps = "; ".join("mk_wp %s %s %s %s false %s 0 %s %s []" % (cl(p["guid"]), cz(p["first"]), cz(p["last"]), cz(p["high"]),
                                                                 cz(p["hb"]), cz(p["an"]), cz(p["nf"])) for p in m["wps"])
-    rps = "; ".join("mk_rp %s true %s %s %s 0 0" % (cl(p["guid"]), cz(p["sent"]), cz(p["acked"]), cz(p["an"])) for p in m["rps"])
+    rps = "; ".join("mk_rp %s %s %s %s %s 0 0" % (cl(p["guid"]), "true" if p["rel"] else "false", cz(p["sent"]), cz(p["acked"]), cz(p["an"]))
+                    for p in m["rps"])
     chs = "; ".join("mk_ch %d %d true" % (s, n) for s, n in m["changes"])
     return "(mk_ps [mk_sr %s %s true [%s]] [mk_sw %s [%s] %d [%s]])" % (
         cl(EID_R), "true" if m["rel"] == 1 else "false", wps, cl(EID_W), chs, m["frag"], rps)
@@ -375,7 +405,7 @@ def rbits(r):
 
 
 def rprefix(r):
-    return r.choice([PFX_S, PFX_S, PFX_S, PFX_V, PFX_H, PFX_U])
+    return r.choice([PFX_S, PFX_S, PFX_S, PFX_V, PFX_U])
 
 
 def reid(r, default):
@@ -503,7 +533,11 @@ def neighbours():
 
 
 def mutate(r, d):
-    """structure-aware mutation of a real datagram"""
+    """structure-aware mutation of a real datagram (datagrams of the healthy peer are first
+    re-labelled as coming from S: claiming the identity of the peer used by the liveness probe
+    can legitimately disturb that session, e.g. a GAP makes the reader skip samples)"""
+    if d[8:20] == PFX_H:
+        d = d[:8] + PFX_S + d[20:]
     subs = W.split(d)
     k = r.random()
     if subs and k < 0.55:
